@@ -39,6 +39,12 @@ TRUSTED = {
     'A16': 'A16 IEEE-754 binary64 is exact on small integers (used only for C05\'s "the slow path does what the shortcut does" under first-fit): for usize a, b with a + b < 2^53, '
            'u2f(a) + u2f(b) == u2f(a + b); the conversion usize -> f64 is monotone (a <= b implies not u2f(a) > u2f(b)); u2f(0) == 0.0; and the target is 64-bit (every integer below '
            '2^53 is a usize). Stated as axioms in U17 because Verus has no float theory; DISCHARGED bit-precisely for every pair of usize values by Kani harness K3 (loop-free, full domain; the conversion is taken from the real Fragment accessor Word::width()). What stays assumed is only that Verus\' uninterpreted u2f / fadd / fgt denote the machine operations K3 checks',
+    'A17': 'A17 determinism of the word pipeline: in U11 each restated callee contract (find_words, split_words, break_words, Word::from, WrapAlgorithm::wrap) also says '
+           '"the result is a function of the argument values" (r == f(args), f uninterpreted). The callees are safe Rust over their arguments with no I/O, randomness or state that '
+           'outlives the call (LineNumbers\' RefCell is local to one call), and for find_words (U13, U20), split_points/split_words (U16, U14), break_apart (U15) and wrap_first_fit (U1) '
+           'the contracts proved in their own units determine the result uniquely; for optimal-fit it rests on smawk being deterministic, for the Custom variants on their authors (A15). '
+           'Also: str::split is modelled by the uninterpreted split_spec with two std facts as axioms (a text without the separator is one piece; for the separators "\\n" and "\\r\\n" '
+           'the pieces of a ++ sep ++ b are those of a followed by those of b), both checked on the real str::split by the bounded contract A4.std_models',
     'R17': 'R17 RefCell<Vec<usize>> is verified as a plain Vec behind &mut self (LineNumbers): every borrow()/borrow_mut() is a temporary that dies within its own '
            'statement and none overlaps another or the recursive call, so the dynamic borrow checks cannot fail',
     'R15': 'R15 generic parameters are verified at one instance: Opt = Options<\'a> (Into is the identity there), I = Vec<Word<\'a>>',
@@ -129,20 +135,33 @@ PROPS = {
         'explanation': 'Proof: greedy-maximality is the postcondition of wrap_first_fit (exists breaks. lines_match && greedy), discharged by Verus; BEC re-checks by execution.',
     },
     'C08': {
-        'units': ['U11', 'U22'], 'level': 'other', 'trusted': ['A3', 'A4', 'A9', 'A12', 'R15'],
-        'proved_part': 'Verus, all inputs, no assumption beyond the std wrappers: output line n of wrap starts with initial_indent if n == 0 else subsequent_indent — through '
-                       'the fast path, the slow path and lines from empty paragraphs.',
-        'bounded_part': 'BEC: second sentence (the remainder depends only on the indents\' widths and emptiness) — relational over two calls.',
-        'explanation': 'Mixed: the first sentence is proved completely (postcondition `indented` of wrap); the second sentence is relational and bounded.',
+        'units': ['U11', 'U22'], 'level': 'proof', 'trusted': ['A3', 'A4', 'A9', 'A12', 'A15', 'A17', 'R15'],
+        'proved_part': 'Verus, all inputs. First sentence: output line n of wrap starts with initial_indent if n == 0 else subsequent_indent — through the fast path, the slow path and '
+                       'lines from empty paragraphs (postcondition `indented` of wrap; no assumption beyond the std wrappers). Second sentence: wrap is proved to compute the paragraph-wise '
+                       'function wrap_fn of the pieces str::split yields (postcondition of wrap over those of wrap_single_line and wrap_single_line_slow_path: the appended lines are '
+                       'para_fn(paragraph, options, does it start the output)); theorems over that function: every line is indent_n ++ wrap_rest[n] (wrap_fn_is_indent_plus_rest), and '
+                       'wrap_rest is THE SAME for two option sets that differ only in the characters of their indents while agreeing on the indents\' display widths and emptiness '
+                       '(c08_rest_depends_on_indent_widths_only, c08_wrap_rest_depends_on_indent_widths_only) — relative to A17 (each word stage is a function of its arguments). '
+                       'A probe shows the emptiness clause is needed (dropping it makes the theorem fail).',
+        'bounded_part': 'BEC: both sentences again by execution on the real crate (two calls with indents of equal width and emptiness but different characters).',
+        'explanation': 'Proof: the first sentence is a postcondition of wrap; the second is a theorem over wrap\'s functional postcondition (lines == wrap_fn(pieces, options)), '
+                       'discharged by Verus; BEC re-checks both by execution.',
     },
     'C09': {
-        'units': ['U11', 'U12', 'U22'], 'level': 'other', 'trusted': ['A3', 'A4', 'A9', 'A12', 'R15'],
-        'proved_part': 'Verus: each paragraph appends >= 1 line and never touches earlier lines (never fewer lines than paragraphs); every slice lies inside one paragraph and consecutive '
-                       'slices are separated by at most one line ending, so text is never joined across a break (U11, whole-text contract of wrap); '
-                       'fill_slow_path == wrap\'s lines joined by the configured line ending (U12); the by-reference conversion of Options copies every option unchanged and each setter changes exactly its field (U22); fill == wrap\'s lines joined for every text, shortcut included (U12: fill calls the fill_slow_path contract proved in the same unit; from U11 only '
-                       'wrap\'s shortcut postcondition is restated).',
-        'bounded_part': 'BEC: wrap(a+E+b) begins with wrap(a), the rest is independent of a and equals wrap(b) for empty indents; LF<->CRLF equivariance; fill fast path.',
-        'explanation': 'Mixed: append-only structure and the join are proved; independence is relational over several calls and bounded.',
+        'units': ['U11', 'U12', 'U22'], 'level': 'proof', 'trusted': ['A3', 'A4', 'A9', 'A12', 'A15', 'A17', 'R15'],
+        'proved_part': 'Verus, all inputs. wrap is proved to compute wrap_fn(split(text, E), options): paragraph k contributes para_fn(paragraph, options, is it first), appended to what '
+                       'is there (U11: postconditions of wrap_single_line_slow_path, wrap_single_line — shortcut and slow path — and wrap). Theorems over that function, for all texts a, b: '
+                       'wrap(a ++ E ++ b) begins with exactly the lines of wrap(a); the remaining lines are rest_fn(pieces of b, options), a function of b and the options alone, hence '
+                       'independent of a; with empty indents they equal wrap(b); the output never has fewer lines than the input has paragraphs (c09_paragraphs_independent). '
+                       'Every slice lies inside one paragraph and consecutive slices are separated by at most one line ending, so text is never joined across a break (whole-text '
+                       'contract of wrap, C01). fill == wrap\'s lines joined by the configured line ending for every text, shortcut included (U12). LF <-> CRLF: for newline-free '
+                       'paragraphs ps, wrap(join(ps, "\\n"), LF options) and wrap(join(ps, "\\r\\n"), CRLF options) are the same lines (c09_line_ending_equivariance), so fill\'s '
+                       'two results differ only by the substitution. The by-reference conversion of Options copies every option unchanged and each setter changes exactly its field (U22). '
+                       'Relative to A17 (each word stage is a function of its arguments; two std facts about str::split over a concatenation).',
+        'bounded_part': 'BEC: every sentence again by execution on the real crate: wrap(a+E+b) begins with wrap(a), the rest is independent of a and equals wrap(b) for empty indents; '
+                        'LF<->CRLF equivariance; fill == join, fast path included; and the std facts about str::split the theorems rest on (A4.std_models).',
+        'explanation': 'Proof: every sentence of the statement is a discharged Verus obligation — postconditions of wrap / fill, and theorems over wrap\'s functional postcondition '
+                       '(lines == wrap_fn(split(text, E), options)) — relative to A17; BEC re-checks all of it by execution.',
     },
     'C10': {
         'units': ['U3'], 'level': 'proof', 'kani': [K1, K1MIN], 'trusted': ['A2', 'A3', 'A8', 'A12', 'A13'],
